@@ -192,8 +192,17 @@ class MetadorNode(wrapt.ObjectProxy):
             return MetadorDataset(
                 self._self_container, val, **self._child_node_kwargs()
             )
+        elif isinstance(val, h5py.HLObject) and any(self.acl.values()):
+            # e.g. a named datatype - would be a raw object with parent and file
+            msg = f"Cannot access {val}, the node has restrictions: {self.acl}"
+            raise UnsupportedOperationError(msg)
         else:
             return val
+
+    def _is_wrappable(self, val) -> bool:
+        """Return whether a raw object can be handed out by this node."""
+        is_node = isinstance(val, (H5GroupLike, H5DatasetLike))
+        return is_node or not any(self.acl.values())
 
     def _destroy_meta(self, _unlink: bool = True):
         """Destroy all attached metadata at and below this node."""
@@ -458,7 +467,7 @@ class MetadorGroup(MetadorNode):
     # must wrap nodes passed into the callback function and filter visited names
     def visititems(self, func):
         def wrapped_func(name, node):
-            if M.is_internal_path(node.name):
+            if M.is_internal_path(node.name) or not self._is_wrappable(node):
                 return  # skip path/node
             return func(name, self._wrap_if_node(node))
 
@@ -480,7 +489,7 @@ class MetadorGroup(MetadorNode):
                 # NOTE: e.g. when nodes are deleted/moved during iteration,
                 # v can suddenly be None -> we need to catch this case!
                 continue
-            if not M.is_internal_path(v.name):
+            if not M.is_internal_path(v.name) and self._is_wrappable(v):
                 yield (k, self._wrap_if_node(v))
 
     def values(self):
